@@ -523,7 +523,7 @@ fn case(g: &mut Gen, w: &mut World) -> Result<(), Failure> {
             0 | 2 => {
                 let roundtrip = op == 2;
                 let user = 1 + g.index(3);
-                let mode = if n == 1 { 0 } else { g.weighted(&[5, 6, 2]) };
+                let mode = if n == 1 { 0 } else { g.weighted(&[4, 8, 2]) };
                 let mut amounts: Vec<BigInt> = Vec::new();
                 match mode {
                     1 if m.reserves.iter().any(|r| r.is_positive()) => {
